@@ -27,7 +27,10 @@ RULE = ('every class of sympde/topology/analytical_mapping.py x admissible dimen
         'fixed dimension also ldim < pdim: curves (1,2), (1,3) and surfaces (2,3)) x parameter sets (integers, rationals, '
         'python/numpy floats, sympy Float / Decimal / mpf objects, mixtures; quick 1-2, thorough 5 per class) in ranges where the '
         'mapping is regular, and user subclasses of Mapping defined the same way (random polynomial / trigonometric '
-        'perturbations of the identity in 1D-3D, or of the embedding of a curve / surface: _ldim < _pdim); a fixed corpus; '
+        'perturbations of the identity in 1D-3D, or of the embedding of a curve / surface: _ldim < _pdim, half of them written with '
+        'logical coordinates beyond ldim, which count as zero; AffineMapping with ldim < pdim also with the whole pdim x pdim '
+        'coefficient matrix); a fixed corpus; call history: every callable quantity is evaluated at 2-3 scalar points and on two '
+        'point sets of every array shape, all results are kept and compared afterwards; '
         'evaluation points = random dyadic rationals (exact in floating point), special angles, and points where a leading '
         'principal minor (pivot) of the Jacobian vanishes although the mapping is regular; argument shapes (), (n,), (n,1)/(1,m), '
         '(a,1,1)/(1,b,1)/(1,1,c), mixed scalar/array, incompatible ones; a correspondence case is one shape request or one '
